@@ -42,6 +42,10 @@ pub struct Case {
     /// the bank holding the account's assets was switched to reduce-only by the admin
     #[serde(default)]
     pub assets_reduce_only: bool,
+    /// the bank holding the account's assets caps the value counted for *initial* margin at this many
+    /// dollars (0 = no cap); the cap must not shrink the assets in the bankruptcy (equity) test
+    #[serde(default)]
+    pub assets_init_limit: u64,
 }
 
 fn bank_spec_by(name: &str) -> BankSpec {
@@ -83,6 +87,13 @@ pub fn prepare(w: &World, s0: &Store, c: &Case) -> Store {
     }
     if c.assets_reduce_only {
         let r = process_tx(&mut s, &Tx::one(ix::configure_bank(w.group, w.roles.admin, w.banks[1].key, marginfi_type_crate::types::BankConfigOpt { operational_state: Some(BankOperationalState::ReduceOnly), ..Default::default() }), &[w.roles.admin]));
+        assert!(r.ok());
+    }
+    if c.assets_init_limit > 0 {
+        // someone else holds $50,000 in that bank, so that the cap is exceeded many thousand times over
+        let r = act::apply(w, &mut s, &Action::Deposit { u: 1, b: 1, amt: 50_000_000_000, up_to_limit: None });
+        assert!(r.committed, "large deposit into the asset bank failed: {:?}", r);
+        let r = process_tx(&mut s, &Tx::one(ix::configure_bank_limits_only(w.group, w.roles.limit, w.banks[1].key, None, None, Some(c.assets_init_limit)), &[w.roles.limit]));
         assert!(r.ok());
     }
     let lsv = I80F48::from_bits(lsv_raw);
@@ -274,9 +285,10 @@ pub fn cases(tier: Tier, bank: &str, dist: usize, deposits: u64) -> Vec<Case> {
     let mut v = vec![];
     let one = I80F48::ONE.to_bits();
     let half = one / 2;
-    let lsvs: Vec<i128> = if tier == Tier::Quick { vec![one, one + one / 7] } else { vec![one, one + 1, one + one / 7, 3 * one] };
+    let lsvs: Vec<i128> = if tier == Tier::Quick { vec![one, one + one / 7] } else { vec![one, one + 1, one + one / 7, one + one / 3, 3 * one, 200 * one] };
     let signers = [(Signer::GroupAdmin, false), (Signer::RiskAdmin, false), (Signer::Stranger, false), (Signer::EmodeAdmin, false), (Signer::Stranger, true), (Signer::EmodeAdmin, true), (Signer::RiskAdmin, true), (Signer::Authority, false)];
-    for ins in [0u64, 1_000] {
+    let ins_menu: Vec<u64> = if tier == Tier::Quick { vec![0, 1_000] } else { vec![0, 1, 999, 1_000, 1_001, 77_777] };
+    for ins in ins_menu {
         let (i, d) = (ins as i128, deposits as i128);
         let lattice: Vec<i128> = vec![i / 2, i - 1, i, i + 1, i + d / 2, i + d - 1, i + d, i + d + 1, 10 * (i + d)];
         for b in lattice {
@@ -287,7 +299,7 @@ pub fn cases(tier: Tier, bank: &str, dist: usize, deposits: u64) -> Vec<Case> {
                 }
                 for &lsv in &lsvs {
                     for (signer, perm) in signers.iter() {
-                        v.push(Case { bank: bank.into(), dist, ins, debt_raw: debt.to_string(), lsv_raw: lsv.to_string(), signer: signer.clone(), permissionless: *perm, target: 0, assets: 0, account_flags: 0, stale_s: 0, assets_reduce_only: false });
+                        v.push(Case { bank: bank.into(), dist, ins, debt_raw: debt.to_string(), lsv_raw: lsv.to_string(), signer: signer.clone(), permissionless: *perm, target: 0, assets: 0, account_flags: 0, stale_s: 0, assets_reduce_only: false, assets_init_limit: 0 });
                     }
                 }
             }
@@ -299,7 +311,7 @@ pub fn cases(tier: Tier, bank: &str, dist: usize, deposits: u64) -> Vec<Case> {
         for target in [0u8, 1, 2] {
             for flags in [0u64, ACCOUNT_IN_FLASHLOAN, ACCOUNT_IN_RECEIVERSHIP, ACCOUNT_DISABLED] {
                 for (signer, perm) in [(Signer::RiskAdmin, false), (Signer::Stranger, true), (Signer::Stranger, false)] {
-                    v.push(Case { bank: bank.into(), dist, ins: 1_000, debt_raw: debt.to_string(), lsv_raw: one.to_string(), signer, permissionless: perm, target, assets, account_flags: flags, stale_s: 0, assets_reduce_only: false });
+                    v.push(Case { bank: bank.into(), dist, ins: 1_000, debt_raw: debt.to_string(), lsv_raw: one.to_string(), signer, permissionless: perm, target, assets, account_flags: flags, stale_s: 0, assets_reduce_only: false, assets_init_limit: 0 });
                 }
             }
         }
@@ -311,7 +323,7 @@ pub fn cases(tier: Tier, bank: &str, dist: usize, deposits: u64) -> Vec<Case> {
                 for &lsv in &lsvs {
                     for (signer, perm) in [(Signer::RiskAdmin, false), (Signer::Stranger, true)] {
                         let debt = (ins as i128 + deposits as i128 * num / 4) * one + half;
-                        v.push(Case { bank: bank.into(), dist, ins, debt_raw: debt.to_string(), lsv_raw: lsv.to_string(), signer, permissionless: perm, target: 0, assets: 0, account_flags: 0, stale_s, assets_reduce_only: false });
+                        v.push(Case { bank: bank.into(), dist, ins, debt_raw: debt.to_string(), lsv_raw: lsv.to_string(), signer, permissionless: perm, target: 0, assets: 0, account_flags: 0, stale_s, assets_reduce_only: false, assets_init_limit: 0 });
                     }
                 }
             }
@@ -320,19 +332,25 @@ pub fn cases(tier: Tier, bank: &str, dist: usize, deposits: u64) -> Vec<Case> {
     // a solvent account whose collateral bank is reduce-only is still solvent
     for assets in [90_000u64, 110_000, 5_000_000_000] {
         for (signer, perm) in [(Signer::RiskAdmin, false), (Signer::Stranger, true)] {
-            v.push(Case { bank: bank.into(), dist, ins: 1_000, debt_raw: debt.to_string(), lsv_raw: one.to_string(), signer, permissionless: perm, target: 0, assets, account_flags: 0, stale_s: 0, assets_reduce_only: true });
+            v.push(Case { bank: bank.into(), dist, ins: 1_000, debt_raw: debt.to_string(), lsv_raw: one.to_string(), signer, permissionless: perm, target: 0, assets, account_flags: 0, stale_s: 0, assets_reduce_only: true, assets_init_limit: 0 });
+        }
+    }
+    // ... and so is one whose collateral bank caps the value counted for initial margin far below its deposits
+    for assets in [110_000u64, 5_000_000_000] {
+        for (signer, perm) in [(Signer::RiskAdmin, false), (Signer::Stranger, true)] {
+            v.push(Case { bank: bank.into(), dist, ins: 1_000, debt_raw: debt.to_string(), lsv_raw: one.to_string(), signer, permissionless: perm, target: 0, assets, account_flags: 0, stale_s: 0, assets_reduce_only: false, assets_init_limit: 1 });
         }
     }
     // a cover large enough for a capped Token-2022 transfer fee to bind (insurance 1,000,000)
     for b in [400_000i128, 999_999, 1_000_000, 1_000_001] {
         for frac in [0i128, half] {
             let d = b * one + frac;
-            v.push(Case { bank: bank.into(), dist, ins: 1_000_000, debt_raw: d.to_string(), lsv_raw: one.to_string(), signer: Signer::RiskAdmin, permissionless: false, target: 0, assets: 0, account_flags: 0, stale_s: 0, assets_reduce_only: false });
+            v.push(Case { bank: bank.into(), dist, ins: 1_000_000, debt_raw: d.to_string(), lsv_raw: one.to_string(), signer: Signer::RiskAdmin, permissionless: false, target: 0, assets: 0, account_flags: 0, stale_s: 0, assets_reduce_only: false, assets_init_limit: 0 });
         }
     }
     // assets above liabilities but under ten cents: not bankrupt
     for debt_small in [one / 100, one * 20_000] {
-        v.push(Case { bank: bank.into(), dist, ins: 0, debt_raw: debt_small.to_string(), lsv_raw: one.to_string(), signer: Signer::RiskAdmin, permissionless: false, target: 0, assets: 50_000, account_flags: 0, stale_s: 0, assets_reduce_only: false });
+        v.push(Case { bank: bank.into(), dist, ins: 0, debt_raw: debt_small.to_string(), lsv_raw: one.to_string(), signer: Signer::RiskAdmin, permissionless: false, target: 0, assets: 50_000, account_flags: 0, stale_s: 0, assets_reduce_only: false, assets_init_limit: 0 });
     }
     v
 }
@@ -505,7 +523,7 @@ pub fn replay(v: &serde_json::Value) -> Vec<crate::mc::Violation> {
         // recreate a killed bank: debt far above deposits, no insurance
         let (w, s0) = base(bank, 0);
         let one = I80F48::ONE.to_bits();
-        let c = Case { bank: bank.into(), dist: 0, ins: 0, debt_raw: (50_000 * one).to_string(), lsv_raw: one.to_string(), signer: Signer::RiskAdmin, permissionless: false, target: 0, assets: 0, account_flags: 0, stale_s: 0, assets_reduce_only: false };
+        let c = Case { bank: bank.into(), dist: 0, ins: 0, debt_raw: (50_000 * one).to_string(), lsv_raw: one.to_string(), signer: Signer::RiskAdmin, permissionless: false, target: 0, assets: 0, account_flags: 0, stale_s: 0, assets_reduce_only: false, assets_init_limit: 0 };
         let j = judge(&w, &s0, &c);
         let Some(k) = j.killed_state else { return vec![] };
         let mut found = vec![];
